@@ -622,7 +622,29 @@ func symExpr(c *Ctx, v ssa.Value, rename map[string]string, bound map[ssa.Value]
 			args = append(args, symExpr(c, a, rename, bound, depth+1))
 		}
 		return name + "(" + strings.Join(args, ",") + ")"
+	case *ssa.Slice:
+		part := func(v ssa.Value) string {
+			if v == nil {
+				return ""
+			}
+			return symExpr(c, v, rename, bound, depth+1)
+		}
+		return symExpr(c, x.X, rename, bound, depth+1) + "[" + part(x.Low) + ":" + part(x.High) + "]"
 	case *ssa.Phi:
+		// a merge of two values selected by one branch condition
+		header := false
+		for _, p := range x.Block().Preds {
+			if x.Block().Dominates(p) {
+				header = true
+			}
+		}
+		if cond, edge0True, ok := phiSelector(x); ok && !header {
+			t, f := x.Edges[0], x.Edges[1]
+			if !edge0True {
+				t, f = f, t
+			}
+			return "(" + symExpr(c, cond, rename, bound, depth+1) + " ? " + symExpr(c, t, rename, bound, depth+1) + " : " + symExpr(c, f, rename, bound, depth+1) + ")"
+		}
 		n := fmt.Sprintf("µ%d", len(bound))
 		nb := map[ssa.Value]string{}
 		for k, val := range bound {
